@@ -34,32 +34,42 @@ Full(m)    == Live(m) >= vcap
 MapInit(m0, cap, extra) ==
     /\ vdisk = m0 /\ vsess = m0 /\ vopen = FALSE /\ vdirty = FALSE /\ vcap = cap /\ vextra = extra
 
-Open == /\ ~vopen
+(* Every action is  guard /\ effect ; the guards are named (Can...) so that the trace specification *)
+(* can tell "no action explains this event" without leaving TLC's evaluable fragment.              *)
+CanOpen == ~vopen
+Open == /\ CanOpen
         /\ vopen' = TRUE /\ vsess' = vdisk /\ vdirty' = FALSE
         /\ UNCHANGED <<vdisk, vcap, vextra>>
 
 \* add_file_data(name, data, options): insert or (replace_existing) overwrite
+CanAdd(n, rep) == /\ vopen
+                  /\ \/ vsess[n] = None /\ ~Full(vsess)
+                     \/ vsess[n] # None /\ rep
 Add(n, c, rep) ==
-        /\ vopen /\ c # None
-        /\ \/ vsess[n] = None /\ ~Full(vsess)
-           \/ vsess[n] # None /\ rep
+        /\ CanAdd(n, rep) /\ c # None
         /\ vsess' = [vsess EXCEPT ![n] = c] /\ vdirty' = TRUE
         /\ UNCHANGED <<vdisk, vopen, vcap, vextra>>
 
 \* Err(FileExists): the name is present and replace_existing = false
-AddFailExists(n, rep) == /\ vopen /\ vsess[n] # None /\ ~rep /\ UNCHANGED mvars
+CanAddFailExists(n, rep) == vopen /\ vsess[n] # None /\ ~rep
+AddFailExists(n, rep) == CanAddFailExists(n, rep) /\ UNCHANGED mvars
 \* Err(table full): a new name and no free entry
-AddFailFull(n)        == /\ vopen /\ vsess[n] = None /\ Full(vsess) /\ UNCHANGED mvars
+CanAddFailFull(n) == vopen /\ vsess[n] = None /\ Full(vsess)
+AddFailFull(n)    == CanAddFailFull(n) /\ UNCHANGED mvars
 
-Remove(n) == /\ vopen /\ vsess[n] # None
+CanRemove(n) == vopen /\ vsess[n] # None
+Remove(n) == /\ CanRemove(n)
              /\ vsess' = [vsess EXCEPT ![n] = None] /\ vdirty' = TRUE
              /\ UNCHANGED <<vdisk, vopen, vcap, vextra>>
-RemoveFail(n) == /\ vopen /\ vsess[n] = None /\ UNCHANGED mvars
+CanRemoveFail(n) == vopen /\ vsess[n] = None
+RemoveFail(n) == CanRemoveFail(n) /\ UNCHANGED mvars
 
-Rename(a, b) == /\ vopen /\ a # b /\ vsess[a] # None /\ vsess[b] = None
+CanRename(a, b) == vopen /\ a # b /\ vsess[a] # None /\ vsess[b] = None
+Rename(a, b) == /\ CanRename(a, b)
                 /\ vsess' = [vsess EXCEPT ![a] = None, ![b] = vsess[a]] /\ vdirty' = TRUE
                 /\ UNCHANGED <<vdisk, vopen, vcap, vextra>>
-RenameFail(a, b) == /\ vopen /\ (vsess[a] = None \/ vsess[b] # None) /\ UNCHANGED mvars
+CanRenameFail(a, b) == vopen /\ (vsess[a] = None \/ vsess[b] # None)
+RenameFail(a, b) == CanRenameFail(a, b) /\ UNCHANGED mvars
 
 \* flush(): everything the session did is on disk
 Flush   == /\ vopen /\ vdisk' = vsess /\ vdirty' = FALSE /\ UNCHANGED <<vsess, vopen, vcap, vextra>>
